@@ -704,6 +704,11 @@ func GetLatestReferenceUpdaterEntry(storer gitstore.Storer, opts ...GetLatestRef
 				allAnnotations = append(allAnnotations, annotation)
 			}
 
+			if len(options.UntilEntryID) != 0 && iteratorT.GetID().Equal(options.UntilEntryID) {
+				// The until entry is newer than the before entry
+				return nil, nil, ErrInvalidGetLatestReferenceUpdaterEntryOptions
+			}
+
 			iteratorT, err = GetParentForEntry(storer, iteratorT)
 			if err != nil {
 				return nil, nil, err
@@ -722,12 +727,21 @@ func GetLatestReferenceUpdaterEntry(storer gitstore.Storer, opts ...GetLatestRef
 			allAnnotations = append(allAnnotations, annotation)
 		}
 
+		if len(options.UntilEntryID) != 0 && iteratorT.GetID().Equal(options.UntilEntryID) {
+			// before is exclusive and until is inclusive, nothing is left
+			return nil, nil, ErrRSLEntryNotFound
+		}
+
 		// Set it to parent as this is the first entry considered below
 		// While this entry may match equal until condition, that's fine
 		// as the until condition is inclusive
 		iteratorT, err = GetParentForEntry(storer, iteratorT)
 		if err != nil {
 			return nil, nil, err
+		}
+
+		if options.UntilEntryNumber != 0 && iteratorT.GetNumber() < options.UntilEntryNumber {
+			return nil, nil, ErrRSLEntryNotFound
 		}
 	}
 
@@ -782,16 +796,17 @@ func GetLatestReferenceUpdaterEntry(storer gitstore.Storer, opts ...GetLatestRef
 			break
 		}
 
+		if len(options.UntilEntryID) != 0 && iteratorT.GetID().Equal(options.UntilEntryID) {
+			// The until entry is inclusive, it has been inspected above
+			return nil, nil, ErrRSLEntryNotFound
+		}
+
 		iteratorT, err = GetParentForEntry(storer, iteratorT)
 		if err != nil {
 			return nil, nil, err
 		}
 
 		if options.UntilEntryNumber != 0 && iteratorT.GetNumber() < options.UntilEntryNumber {
-			return nil, nil, ErrRSLEntryNotFound
-		}
-
-		if len(options.UntilEntryID) != 0 && iteratorT.GetID().Equal(options.UntilEntryID) {
 			return nil, nil, ErrRSLEntryNotFound
 		}
 	}
